@@ -105,8 +105,13 @@ def count_eqns(jaxpr):
 
 
 def primitives(jaxpr, acc=None):
+    """primitive histogram; equinox.error_if (pjit `branched_error_if_impl`, identity on its value operands plus a raise-on-predicate host
+    callback) is counted as one `error_if` and not descended into"""
     acc = {} if acc is None else acc
     for e in jaxpr.eqns:
+        if e.primitive.name in ("pjit", "jit") and e.params.get("name") == "branched_error_if_impl":
+            acc["error_if"] = acc.get("error_if", 0) + 1
+            continue
         acc[e.primitive.name] = acc.get(e.primitive.name, 0) + 1
         for v in e.params.values():
             for sub in (v if isinstance(v, (tuple, list)) else [v]):
